@@ -2161,3 +2161,11 @@ package asm
 //@     requires enc.isQuotedEsc(old.Text(), n)
 //@     instantiate unquote.inverse(n)
 //@     ensures result == n
+//@ # irOverflowFlags translates the written overflow flags one by one, in order, into a new slice and touches nothing else
+//@ func irOverflowFlags
+//@   props C04 C05 C18
+//@   assigns nothing
+//@   ensures len(result) == len(olds) && (len(olds) == 0 || fresh(result))
+//@   ensures forall(k, 0, len(olds), result[k] == enum.OverflowFlagFromString(olds[k].Text()))
+//@   loop 0: invariant 0 <= range_i && range_i <= len(olds) && len(flags) == len(olds) && fresh(flags)
+//@   loop 0: invariant forall(k, 0, range_i, flags[k] == enum.OverflowFlagFromString(olds[k].Text()))
